@@ -437,6 +437,18 @@ func checkPair(c pairCase) ev.Outcome {
 		if e := within(&o, "DistanceToCell", got, want, tol(want)); e != "" {
 			return fail(sw + e)
 		}
+		// Cells of one face that are in lattice contact have (u,v) rectangles that share
+		// the bit-identical coordinate of the common lattice line, so "the target lies in
+		// or crosses the cell" is decided exactly and the distance is zero, not merely
+		// small (seeded change C12-r121: a vertex of the finer cell on a side of the
+		// coarser one otherwise yields ~1e-32). Across faces the contact is only found
+		// through the vertex/side distances, where a rounding residue is legitimate.
+		if meet && faces == "same-face" {
+			count(&o, "exact-zero(same-face contact)")
+			if got != 0 {
+				return fail(fmt.Sprintf("%sDistanceToCell = %g for cells of one face in lattice contact; it is exactly 0 when the target lies in or crosses the cell", sw, got))
+			}
+		}
 		gotM := float64(pr[0].MaxDistanceToCell(pr[1]))
 		if e := within(&o, "MaxDistanceToCell", gotM, wantM, tol2(wantM, antiD)); e != "" {
 			return fail(sw + e)
@@ -975,7 +987,7 @@ func init() {
 		Rule:  "cell as above; edge endpoints from the point placements above, related pairs, edges reflected through a point of the cell (crossing), edges through a vertex (grazing, ± tilt 1e-18..1e-6), edges along a side's great circle, degenerate edges, 1/4 antipodal; endpoints not within 1e-6 of antipodal. Oracle: 0 if an endpoint is in the exact cell or the edge meets a side (320-bit), else min over corner→edge and endpoint→sides. DistanceToEdge (both endpoint orders) and MaxDistanceToEdge (= π − distance to the antipodal edge) within tol. Non-trivial = a corner within chord 1e-9 of the edge or an endpoint within 1e-9 of the boundary (for the edge or its antipode), near-90° regime, or max within 1e-9 of 90°.",
 		Quick: 40000, Thorough: 1500000}, genEdge, checkEdge)
 	ev.Define("cell_distance", ev.Options{
-		Rule:  "cell pairs: independent, ancestor/descendant, edge neighbours (re-levelled ±3), all neighbours at finer levels, the cell around a point placed relative to the first cell, the antipodal cell and its neighbours. Oracle: contact decided on the integer cube lattice (also across faces); otherwise 320-bit min over the 32 vertex/side pairs of the exact cells; MaxDistanceToCell = π − distance to the antipodal cell (contact: integer lattice of the negated box). Both argument orders. Non-trivial = not nested and (touching, or distance² ≤ 1e-12, or antipode touching/≤1e-12, or different faces).",
+		Rule:  "cell pairs: independent, ancestor/descendant, edge neighbours (re-levelled ±3), all neighbours at finer levels, the cell around a point placed relative to the first cell, the antipodal cell and its neighbours. Oracle: contact decided on the integer cube lattice (also across faces); otherwise 320-bit min over the 32 vertex/side pairs of the exact cells; MaxDistanceToCell = π − distance to the antipodal cell (contact: integer lattice of the negated box). Both argument orders; cells of one face in lattice contact must give exactly 0 (their (u,v) rectangles share a bit-identical coordinate). Non-trivial = not nested and (touching, or distance² ≤ 1e-12, or antipode touching/≤1e-12, or different faces).",
 		Quick: 25000, Thorough: 1000000}, genPair, checkPair)
 	ev.Define("contains_point", ev.Options{
 		Rule:  "quarter: point with (u,v) within 8 ulps of leaf-resolution boundary values (3/4 in the s,t band [0.2,0.3) where the uv->st->ij round trip is least accurate) and its leaf cell or an ancestor; quarter: arbitrary/cell-derived point and an ancestor (any level) of CellFromPoint(p); half: point placed relative to a cell. Leaf id within the cell's id range ⇒ ContainsPoint; point in the exact closed cell (decided exactly) ⇒ ContainsPoint; outside by more than 2ε(1+|u|) or on the wrong side of the face plane ⇒ not contained. Non-trivial = |uv margin| ≤ 8ε, or leaf-range and exact membership disagree.",
